@@ -3,6 +3,8 @@
 //! (a) in-process: FaceAttrs operator programs, faces (Display/FromStr/serde), sizes, key chords, images
 //!     (crops, 1/3/4 channel inputs) — correspondence with `SurfModel.Serde` / `SurfModel.KeyParse`, and an
 //!     independent oracle: structural equality after the round trip / documented pixels.
+//! (c) glyph / text / view-tree documents: correspondence with `SurfModel.SerdeView` (verdict for every document,
+//!     the layout trees of the deserialised view for documents on the exact grid of the C10 layout model).
 //! (b) JSON fuzz: structured documents for image / glyph / text / view tree, run in child processes
 //!     (`c19 batch <in> <out>`): oracle = Ok or Err, never a panic / abort / hang / huge allocation; every
 //!     value that deserialises is laid out and rendered.
@@ -232,4 +234,5 @@ fn alloc_backed(max_req: usize, doc_len: usize) -> bool {
 include!("c19/part_a.rs");
 include!("c19/part_a2.rs");
 include!("c19/part_b.rs");
+include!("c19/part_c.rs");
 include!("c19/main_part.rs");
